@@ -55,7 +55,9 @@ def configs(tier, seed):
                     'omask': rng.random() < 0.35})
         # planes without arrays around the aperture: a tilt picked up before it, and a default / all-scalar / tilt plane after it
         # (tilt angles are fixed multiples of du/f, so the image displacement is a concrete number of samples)
-        if not out[-1]['omask'] and second is None and rng.random() < 0.3:
+        if not out[-1]['omask'] and second is None and len(part) >= 2 and rng.random() < 0.35:
+            out[-1]['segtilt'] = True      # each segment carries its own sub-sample tilt as metadata; the monolithic description has it in the OPD
+        elif not out[-1]['omask'] and second is None and rng.random() < 0.3:
             out[-1]['fft'] = rng.choice([max(nr, nc), max(nr, nc) + 1])          # the FFT propagator on a grid of that many samples per axis
         if out[-1]['omask'] and rng.random() < 0.6:
             # an output mask that is a random rectangle of the oversampled output (bounding boxes of either parity anywhere)
@@ -116,6 +118,17 @@ def run(W, cfg):
     if len(cfg['blocks']) == 1:
         # the k = 1 corner of the quantifier written as a one-layer cube
         variants['cube'] = lt.Pupil(amplitude=A, opd=O, mask=stack.copy(), pixelscale=dx, focal_length=f)
+    if cfg.get('segtilt') and len(cfg['blocks']) >= 2 and not cfg.get('pre') and not cfg.get('post') and not cfg.get('rescale'):
+        from fractions import Fraction as _Ft
+        subs = [(_Ft(1, 4), _Ft(-1, 2)), (_Ft(-3, 4), _Ft(1, 4)), (_Ft(1, 8), _Ft(5, 8)), (_Ft(-1, 2), _Ft(-1, 8))]
+        angs = [(W.const(subs[g][0]) * du[0] / (f * cfg['os']), -(W.const(subs[g][1]) * du[1]) / (f * cfg['os'])) for g in range(len(cfg['blocks']))]
+        ramp = W.zeros(shp)
+        for g, b in enumerate(cfg['blocks']):
+            for (r, c) in b:
+                ramp[r, c] = angs[g][0] * ((r - shp[0] // 2) * dx[0]) - angs[g][1] * ((c - shp[1] // 2) * dx[1])
+        variants['mono'] = lt.Pupil(amplitude=A, opd=O + ramp, mask=union.copy(), pixelscale=dx, focal_length=f)
+        variants['seg'].tilt = [lt.Tilt(x=a[0], y=a[1]) for a in angs]
+        O = O + ramp                        # the whole-array variant below carries the ramp in its OPD as well
     # whole-array variant: mask of ones, amplitude already zero off the support
     Az = W.zeros(shp)
     for r in range(shp[0]):
@@ -194,7 +207,7 @@ def run(W, cfg):
     W.ob('intensity seg coherent', res['seg'][1], W.array([[W.abs2(fs[i, j]) for j in range(S[1])] for i in range(S[0])]))
     # and against the defining sum (ties the common value to C02's reference)
     sup = [tuple(x) for b in cfg['blocks'] for x in b]
-    if not cfg['second'] and not cfg.get('pre') and not cfg.get('post') and not cfg.get('fft') and not cfg.get('rescale'):
+    if not cfg['second'] and not cfg.get('pre') and not cfg.get('post') and not cfg.get('fft') and not cfg.get('rescale') and not cfg.get('segtilt'):
         wr = optics.centre_window(S[0], cfg['prop'][0] * cfg['os'])
         wc = optics.centre_window(S[1], cfg['prop'][1] * cfg['os'])
         samples = [((r, c), optics.phasor(W, A[r, c], O[r, c], lam)) for r, c in sup]
